@@ -73,25 +73,30 @@ type readL struct {
 }
 
 type traceT struct {
-	Sched       []evT
-	Labels      []int64
-	Rets        [][]int64
-	Final       [][]int64
-	Adds        []addL
-	Reads       []readL
-	Stalled     bool // some operation spanned more than one bucket length of clock
-	Overlap     bool // a recorder was active on a slot while another goroutine was rolling that slot over
-	Spin        int  // failed TryLocks
-	SpinBad     bool // a TryLock failed although no goroutine was inside the critical section
-	MutexBad    bool // a goroutine entered the critical section while another one was inside it
-	Resets      int
-	Behind      int
-	Clock       int64
-	Steps       int
-	Timeout     bool
-	Post        []int64 // sequential CountWithTime(clock, k) after the schedule, k = 0..4
-	intervalObs int64
-	maxActive   int
+	Sched    []evT
+	Labels   []int64
+	Rets     [][]int64
+	Final    [][]int64
+	Adds     []addL
+	Reads    []readL
+	Stalled  bool   // some operation spanned more than one bucket length of clock
+	Overlap  bool   // a recorder was active on a slot while another goroutine was rolling that slot over
+	Spin     int    // failed TryLocks
+	SpinBad  bool   // a TryLock failed although no goroutine was inside the critical section
+	NonTerm  string // why an operation cannot terminate (set together with SpinBad)
+	MutexBad bool   // a goroutine entered the critical section while another one was inside it
+	Resets   int
+	Behind   int
+	Clock    int64
+	Steps    int
+	Timeout  bool
+	// SchedTimeout: a released goroutine neither parked nor finished within the scheduler's wall-clock limit
+	// (machine overload, or a goroutine blocked on something that is not a yield). The run is abandoned and the
+	// case is executed again from scratch; only a repeated timeout is reported.
+	SchedTimeout bool
+	Post         []int64 // sequential CountWithTime(clock, k) after the schedule, k = 0..4
+	intervalObs  int64
+	maxActive    int
 	// enumeration support: alternatives that were enabled at each position of Sched
 	Alts [][]evT
 }
@@ -121,6 +126,7 @@ type runner struct {
 	rets   [][]int64
 	tr     *traceT
 	holder int
+	dead   bool // abandoned after a scheduler timeout: no further goroutine is released
 }
 
 func (r *runner) idx(now int64) int  { return int((now / r.c.BL) % int64(r.c.N)) }
@@ -236,8 +242,8 @@ func (r *runner) run(i int) int {
 	nretsBefore := len(r.rets[i])
 	l := r.s.Step(i)
 	if l == -2 {
-		r.tr.Timeout = true
-		l = sched.Done
+		r.tr.Timeout, r.tr.SchedTimeout, r.dead = true, true, true
+		return sched.Done
 	}
 	r.tr.Sched = append(r.tr.Sched, evT{Tid: i})
 	r.tr.Alts = append(r.tr.Alts, nil)
@@ -255,7 +261,7 @@ func (r *runner) run(i int) int {
 		t.zeroed = 0
 		r.holder = i
 		r.tr.Resets++
-	case at == 103: // TryLock failed
+	case at == 103 && l == 101: // TryLock failed: back to the head of the spin loop
 		r.tr.Spin++
 		t.futile++
 		t.rolling = false
@@ -266,8 +272,16 @@ func (r *runner) run(i int) int {
 			}
 		}
 		if !ok {
+			// Nobody is inside the critical section, yet the lock word is set: it will never be released, so
+			// this and every further attempt fails the same way (a spin iteration is futile only while the
+			// lock holder has a step enabled - C09_termination). The operation cannot terminate; the schedule
+			// executed so far is the failing input. Stop here instead of spinning up to the step limit.
 			r.tr.SpinBad = true
+			r.tr.NonTerm = fmt.Sprintf("goroutine %d (operation %d, timestamp %d): TryLock failed at event %d while no goroutine was inside the critical section", i, t.op, t.now, pos)
+			r.dead = true
 		}
+	case at == 103: // left the rollover path without entering the critical section and without retrying
+		t.rolling = false
 	case at == 104:
 		t.inCS, t.rolling = false, false
 		r.holder = -1
@@ -313,9 +327,40 @@ func (r *runner) finish() {
 	if int64(r.arr.BucketLengthInMs()) != r.c.BL || int(r.arr.SampleCount()) != r.c.N {
 		panic("geometry of the Go object differs from the case")
 	}
-	for k := 0; k < int(sbase.MetricEventTotal); k++ {
-		r.tr.Post = append(r.tr.Post, r.arr.CountWithTime(uint64(r.clk), sbase.MetricEvent(k)))
+	// the sequential read after the schedule; skipped when a goroutine is still parked (it may hold the
+	// try-lock, on which an unmanaged reader would spin forever)
+	if !r.dead && r.allDone() {
+		r.postReads()
 	}
+}
+
+// postReads runs CountWithTime(clock, k), k = 0..4, on a managed goroutine that is alone: every operation has
+// finished, so nobody can hold the try-lock and every step is useful. The model's variant bounds a read by
+// 17 + 3*sampleCount steps (prog cost of one read); a failed TryLock here means the lock was leaked.
+func (r *runner) postReads() {
+	var post []int64
+	idx := r.s.Spawn(func() {
+		for k := 0; k < int(sbase.MetricEventTotal); k++ {
+			post = append(post, r.arr.CountWithTime(uint64(r.clk), sbase.MetricEvent(k)))
+		}
+	})
+	bound := int(sbase.MetricEventTotal) * (17 + 3*r.c.N + 8)
+	at := sched.Start
+	for n := 0; !r.s.IsDone(idx); n++ {
+		prev := at
+		at = r.s.Step(idx)
+		if at == -2 {
+			r.tr.Timeout, r.tr.SchedTimeout, r.dead = true, true, true
+			return
+		}
+		if (prev == 103 && at == 101) || n > bound {
+			r.tr.SpinBad = true
+			r.tr.NonTerm = fmt.Sprintf("sequential CountWithTime(%d, event %d) after the schedule: TryLock failed although every goroutine had finished (%d steps)", r.clk, len(post), n)
+			r.dead = true
+			return
+		}
+	}
+	r.tr.Post = post
 }
 
 // visible reports whether parking point l of goroutine i is a scheduling point of the reduced
@@ -359,11 +404,14 @@ func execute(c caseT, ch chooser) *traceT {
 			r.tick(e.Dt)
 			continue
 		}
-		for !r.done(e.Tid) && r.tr.Steps < maxSteps {
+		for !r.dead && !r.done(e.Tid) && r.tr.Steps < maxSteps {
 			r.run(e.Tid)
 		}
 	}
 	for _, e := range c.Script {
+		if r.dead {
+			break
+		}
 		if e.Tid < 0 {
 			r.tick(e.Dt)
 		} else {
@@ -371,7 +419,7 @@ func execute(c caseT, ch chooser) *traceT {
 		}
 	}
 	ticks := append([]int64{}, c.Ticks...)
-	for !r.allDone() && r.tr.Steps < maxSteps {
+	for !r.dead && !r.allDone() && r.tr.Steps < maxSteps {
 		if ch == nil {
 			break
 		}
@@ -407,7 +455,7 @@ func execute(c caseT, ch chooser) *traceT {
 	}
 	// anything left (script cases that stop early): drain deterministically
 	for i := range r.th {
-		for !r.done(i) && r.tr.Steps < maxSteps {
+		for !r.dead && !r.done(i) && r.tr.Steps < maxSteps {
 			r.run(i)
 		}
 	}
@@ -422,7 +470,7 @@ func execute(c caseT, ch chooser) *traceT {
 func (r *runner) stepMerged(i int, ticksLeft int, kinds map[int]bool) {
 	for {
 		r.run(i)
-		if r.done(i) || r.visible(i, ticksLeft, kinds) || r.tr.Steps >= maxSteps {
+		if r.dead || r.done(i) || r.visible(i, ticksLeft, kinds) || r.tr.Steps >= maxSteps {
 			return
 		}
 	}
@@ -435,12 +483,13 @@ func monitor(c caseT, tr *traceT, rep *emit.Report) {
 	fail := func(clause, sig, detail string) { rep.Fail(c.ID, clause, sig, detail, c) }
 	bs := func(now int64) int64 { return now - now%c.BL }
 	interval := int64(c.N) * c.BL
+	if tr.SpinBad {
+		fail("termination", "operation-does-not-terminate-lock-never-released", tr.NonTerm+": the update lock is held by nobody who could release it, so the operation spins forever (schedule up to this event = failing input)")
+		return
+	}
 	if tr.Timeout {
 		fail("termination", "schedule-did-not-complete", fmt.Sprintf("%d steps without all goroutines finishing", tr.Steps))
 		return
-	}
-	if tr.SpinBad {
-		fail("termination", "trylock-failed-with-no-holder", "a TryLock failed while no goroutine was inside the critical section")
 	}
 	if tr.MutexBad {
 		fail("mutual_exclusion", "two-goroutines-inside-reset", "a goroutine entered ResetBucketTo while another goroutine was inside it (updateLock does not serialise resets)")
@@ -636,6 +685,28 @@ func d7Case(id int, parkAt int) caseT {
 	return c
 }
 
+// window edge: a stalled recorder (timestamp one interval back) publishes its older start after a reader at a
+// bucket boundary has refreshed the current bucket and before the reader's valuesWithTime looks at that slot:
+// now - BucketStart == interval exactly, which isBucketDeprecated must treat as expired (>=, not >).
+// The schedule stalls a goroutine, so the monitor's stall-conditioned clauses do not apply; the case exists for
+// the correspondence (the model and the code must agree on the edge of the window).
+func edgeCase(id int) caseT {
+	c := caseT{ID: id, N: 2, BL: 1000, T0: tBase, Mode: "script", Note: "window-edge"}
+	c.Progs = [][]opT{{{Kind: "rec", Ev: 0, Amt: 7}}, {{Kind: "rec", Ev: 0, Amt: 1}}, {{Kind: "read", Ev: 0}}}
+	c.Setup = []evT{{Tid: -1, Dt: 2000}}
+	add := func(tid, n int) {
+		for i := 0; i < n; i++ {
+			c.Script = append(c.Script, evT{Tid: tid})
+		}
+	}
+	add(0, 3) // stale recorder: reads the clock, loads the slot, parks before the TryLock
+	c.Script = append(c.Script, evT{Tid: -1, Dt: 2000})
+	add(1, 14) // recorder at the boundary rolls the slot over and adds
+	add(2, 3)  // reader at the boundary: currentBucketOfTime returns; parked before valuesWithTime
+	add(0, 11) // the stale recorder now takes the lock, resets, publishes the older start, adds
+	return c
+}
+
 // corpus: regression witnesses kept as files (corpus/C09/*.json, field "case"); ids corpusBase+i in
 // file-name order. The directory is looked up from the working directory and from the executable upwards.
 func corpusDir() string {
@@ -788,6 +859,8 @@ func main() {
 		switch {
 		case id >= corpusBase && id < corpusBase+len(corpus):
 			return corpus[id-corpusBase], nil
+		case id == edgeBase:
+			return edgeCase(id), nil
 		case id < d7Base:
 			c := genRandom(root.Fork(uint64(id)), id)
 			return c, randomChooser(root.Fork(uint64(id) + 1<<40))
@@ -798,6 +871,11 @@ func main() {
 	runID := func(id int, corr bool) {
 		c, ch := caseByID(id)
 		tr := execute(c, ch)
+		for attempt := 0; attempt < 2 && tr.SchedTimeout; attempt++ {
+			rep.Count("scheduler_timeouts_retried", 1)
+			c, ch = caseByID(id) // fresh chooser: the case is regenerated identically from its id
+			tr = execute(c, ch)
+		}
 		process(c, tr, corr)
 	}
 	if a.Only >= 0 {
@@ -815,6 +893,7 @@ func main() {
 	for p := 0; p <= 9; p++ {
 		runID(d7Base+p, !a.Search)
 	}
+	runID(edgeBase, !a.Search)
 	for i := range corpus {
 		runID(corpusBase+i, !a.Search)
 	}
